@@ -184,11 +184,16 @@ def inequality(ctx, F):
         div_ok = bool(crets) and crets[0][0] == 'bin' and crets[0][1] == 'Div' and crets[0][3] == ('upvar', 'scale') and crets[0][2][0] == 'param'
         same = scale is not None and s(scaled_f[0][1][1][3]) == s(scale) and scaled_f[0][1][1][2] == ('param', 'bias') and m[2][0] == ('param', 'row')
         # scale = fold(row, 0, |a,b| a.max(b.abs()))
-        fold_ok = scale is not None and is_call(scale, 'Iterator::fold') and scale[2][0] == ('param', 'row')
-        if fold_ok:
-            # positivity witness: the factor is built from absolute values (any positive common factor keeps the inequality)
-            fb, frets = prune.closure_ret(F, scale[2][2])
-            fold_ok = bool(frets) and any(is_call(x, 'f64::abs') for x in walk(frets[0]))
+        # scale = fold(row, 0, |a, b| a.max(b.abs())) (desugared to an accumulator loop over the row, like a hand-written one):
+        # positivity witness: the factor accumulates absolute values of the row's own entries, starting from a non-negative constant
+        fold_ok = False
+        if scale is not None and scale[0] == 'var':
+            defs_ = [d[2] for d in R.var_defs(scale[1])]
+            init = [d for d in defs_ if d[0] == 'const']
+            step = [d for d in defs_ if d[0] != 'const']
+            fold_ok = len(init) == 1 and isinstance(init[0][1], (int, float)) and init[0][1] >= 0 and len(step) == 1 and \
+                any(is_call(x, 'f64::abs') and is_call(x[2][0], 'Iterator::next') and x[2][0][2][0] == ('param', 'row') for x in walk(step[0])) and \
+                any(x == scale for x in walk(step[0]))
         guard = all(any(l[0] == 'false' and is_call(l[1], 'Iterator::all') for l in x[2]) for x in (scaled_l[0], scaled_f[0]))
         ok = div_ok and same and fold_ok and guard
         why = 'div=%s same-scale=%s max-abs=%s not-all-zero-guard=%s' % (div_ok, same, fold_ok, guard)
